@@ -111,7 +111,7 @@ def powp(d, p):
     return t
 
 
-@harness("c19.lp", extra=EXTRA, float_mix="real", path_alarm=400.0, abs_fork=True)
+@harness("c19.lp", extra=EXTRA, float_mix="real", path_alarm=1500.0, abs_fork=True)
 def lp(ctx):
     from votekit.metrics import lp_dist
     P = ctx.params
@@ -166,7 +166,7 @@ def lp(ctx):
     return {"kind": "ok"}
 
 
-@harness("c19.triangle", extra=EXTRA, float_mix="real", path_alarm=400.0, abs_fork=True)
+@harness("c19.triangle", extra=EXTRA, float_mix="real", path_alarm=1500.0, abs_fork=True)
 def triangle(ctx):
     from votekit.metrics import lp_dist
     P = ctx.params
